@@ -20,7 +20,7 @@ from .astutil import FUNC_TYPES, attr_chain, dotted
 from .effects import DELETED, EffectDomain, exc_info_of, is_generator
 from .generators import LazyGenerators
 
-CALLABLE_TAGS = ("func", "method", "boundmethod", "bound", "partial", "builtin", "listappend", "attrgetter", "itemgetter", "methodcaller", "classref", "ctorref", "userfn", "setmethod", "decoderfactory", "decodermethod", "strmethod", "dictmethod", "supermethod", "excclass", "trackedfn", "setattrmethod", "const-fn", "pytype")
+CALLABLE_TAGS = ("func", "method", "boundmethod", "bound", "partial", "builtin", "listappend", "attrgetter", "itemgetter", "methodcaller", "classref", "ctorref", "userfn", "setmethod", "decoderfactory", "decodermethod", "strmethod", "dictmethod", "supermethod", "excclass", "trackedfn", "setattrmethod", "const-fn", "pytype", "partialmethod")
 
 
 def norm_expr(e):
@@ -306,10 +306,7 @@ class ObjectDomain(LazyGenerators, EffectDomain):
             if attr in self._dynamic_names(interp, c, fr):
                 out = []
                 for members, s_ in self._dynamic_run(interp, c, st, fr):
-                    v = members[attr]
-                    if isinstance(v, tuple) and v[:1] == ("func",):
-                        v = ("partial", v, (obj,), ())   # a function kept in the class: looked up on an instance it is bound to it
-                    out.append(val(v, s_))
+                    out.append(val(self._bind_member(members[attr], obj), s_))   # (a function kept in the class: looked up on an instance it is bound to it)
                 return out
         return None
 
@@ -370,8 +367,7 @@ class ObjectDomain(LazyGenerators, EffectDomain):
         got = self._class_attr_expr(ci, attr)
         if got is not None and interp is not None:
             # (a function kept in a class attribute is a method: looked up on an instance it is bound to it)
-            return [r if r.kind == "exc" or not (isinstance(r.value, tuple) and r.value[:1] == ("func",)) else val(("partial", r.value, (inst,), ()), r.state)
-                    for r in self._eval_class_expr(interp, got[0], got[1], st, fr)]
+            return [r if r.kind == "exc" else val(self._bind_member(r.value, inst), r.state) for r in self._eval_class_expr(interp, got[0], got[1], st, fr)]
         dyn = self._dynamic_lookup(interp, ci, attr, inst, st, fr) if not (attr.startswith("__") and attr.endswith("__")) else None
         if dyn is not None:
             return dyn
@@ -838,9 +834,18 @@ class ObjectDomain(LazyGenerators, EffectDomain):
         return None
 
     @staticmethod
-    def _bound_to_root(results):
+    def _bind_member(v, obj):
+        """What looking up a class member on an object gives: a function (and a functools.partialmethod) is bound to the object."""
+        if isinstance(v, tuple) and v[:1] == ("func",):
+            return ("partial", v, (obj,), ())
+        if isinstance(v, tuple) and v[:1] == ("partialmethod",) and len(v) == 4:
+            return ("partial", v[1], (obj,) + tuple(v[2]), tuple(v[3]))
+        return v
+
+    @classmethod
+    def _bound_to_root(cls, results):
         """(a function kept in a class attribute is a method: looked up on the analysed object it is bound to it)"""
-        return [r if r.kind == "exc" or not (isinstance(r.value, tuple) and r.value[:1] == ("func",)) else val(("partial", r.value, (("self",),), ()), r.state) for r in results]
+        return [r if r.kind == "exc" else val(cls._bind_member(r.value, ("self",)), r.state) for r in results]
 
     def root_attr_absent(self, attr):
         """Is an attribute of the analysed object that neither the state, the environment nor the classes of the
@@ -1497,7 +1502,7 @@ class ObjectDomain(LazyGenerators, EffectDomain):
                             if r.kind == "exc":
                                 out.append(r)
                                 continue
-                            callee = ("partial", r.value, (obj,), ()) if isinstance(r.value, tuple) and r.value[:1] == ("func",) else r.value
+                            callee = self._bind_member(r.value, obj)
                             out.extend(self.apply(interp, callee, pos, kw, r.state, fr))
                         return out
                     if name in self._dynamic_names(interp, c, fr):
@@ -2026,6 +2031,16 @@ class ObjectDomain(LazyGenerators, EffectDomain):
                     out.append(val(("itemgetter", r.value), r.state))
                 else:
                     out.append(val(TOP, r.state))
+            return out
+        if d in ("partialmethod", "functools.partialmethod") and call.args and not any(isinstance(a, ast.Starred) for a in call.args) and all(k.arg is not None for k in call.keywords) \
+                and not st.has(fr.local("partialmethod")):
+            out = []
+            for r in interp.eval_list(list(call.args) + [k.value for k in call.keywords], st, fr):
+                if r.kind == "exc":
+                    out.append(r)
+                    continue
+                n_ = len(call.args)
+                out.append(val(("partialmethod", r.value[0], tuple(r.value[1:n_]), tuple((k.arg, v) for k, v in zip(call.keywords, r.value[n_:]))), r.state))
             return out
         if d == "staticmethod" and len(call.args) == 1 and not call.keywords:
             # staticmethod(f): looked up on the class or an instance it is f itself, never bound to the instance
